@@ -103,6 +103,19 @@ def run(ctx, prj: Project, cap: int = 2, tag=""):
         raise AnalysisError(f"{rule.fi.disp}: the selection rule fits none of the recognised forms: {rule.other[:3]}")
     ctx.extra["consume_rule"] = dict(priority_open=rule.priority_open, raises_on_second=rule.raises_on_second,
                                      first_match=rule.first_match)
+    if not tag:
+        ctx.rule("R2", "the selection rule is applied per attempt: Pattern.consume evaluated on a two-transition state gives the same "
+                       "outcome whatever another attempt over the same automaton (find_all runs one per start position on one automaton) "
+                       "consumed before it - 16 x 16 (earlier attempt, this attempt) scenarios of open / accepting predicates", floor=0)
+        if rule.history_dependent:
+            ctx.viol("R2", "Pattern.consume/history-dependent", rule.fi.site(),
+                     f"the outcome of Pattern.consume depends on an earlier attempt over the same automaton: {rule.history_dependent[0]} "
+                     f"({len(rule.history_dependent)} of {rule.history_scenarios} scenario pairs): what one attempt leaves on the shared automaton "
+                     f"switches the open-group priority of the next, so two transitions can apply (ValueError) or the wrong one is taken")
+        elif rule.history_scenarios:
+            ctx.ok("R2", rule.fi.site(), f"Pattern.consume: {rule.history_scenarios} scenario pairs, the second attempt's outcome never depends on the first")
+        else:
+            ctx.info(f"R2: pairs of attempts not evaluable ({rule.history_unknown}); not judged")
     interp = Interp(prj)
     total_cfg = total_chk = 0
     for h in hps:
